@@ -18,4 +18,10 @@ CHECKS = {
         "generates behaviours (edge cover + walks) that the harness realises by calling COTmrService from inside its COTmrLock/COTmrUnlock callbacks; fired callbacks, service results, return values and pool conservation are compared in order.",
    note=MC_NOTE + " Preemption is modelled at lock boundaries only (critical sections assumed atomic w.r.t. the interrupt).",
    technique="TLA+/TLC interleaving model + TLC-generated injection schedules replayed against the C code", ref="DESIGN.md section 8, C08"),
+ "C06": dict(
+   text="The CoDict specification transcribes the binary search with its three integers and states the typed / buffer access rules on little-endian byte tuples; TLC evaluates, exhaustively over the configured constants, that lookup finds exactly the present keys "
+        "and never probes beyond the end mark for every sorted dictionary over the key universe, that typed access round-trips and is width-exact, and that buffer access moves min(len,size) bytes. One behaviour per dictionary / (entry,value,node id) / (entry,length,pattern), "
+        "with the predicted return values, buffer contents, storage changes and per-entry initialisation counts, is replayed on the C code with the dictionary array allocated exactly (ASan red zones).",
+   note=MC_NOTE + " The dictionary part has no interesting state machine: TLC is used as an exhaustive evaluator of universally quantified ASSUMEs and as behaviour generator (states=1 is therefore expected in the evidence; evaluations / assume_instances give the real volume).",
+   technique="TLA+ specification evaluated exhaustively by TLC (ASSUME) + generated scenarios replayed against the C code", ref="DESIGN.md section 8, C06"),
 }
